@@ -731,6 +731,13 @@ impl<'a, 't> Gen<'a, 't> {
                 Node::Inline { pre: indent.to_string(), elem, content, post: format!(" {w}") }
             };
         }
+        // with ASCII-only text left of list markers, the LAST character of a wrapper line may still be multi-byte
+        if self.o.ascii_left && self.t.chance(20) {
+            let tail = self.t.s(&["é", "あ", "😀"]);
+            if !tail.chars().any(|c| self.bad.contains(&c)) {
+                return Node::Line(format!("{indent}{w}{tail}"));
+            }
+        }
         Node::Line(format!("{indent}{w}"))
     }
 
